@@ -54,8 +54,7 @@ type c16Scanner struct {
 	measure                      map[types.Object]types.Object // word -> wordLen
 	measureLoop                  map[ast.Stmt]bool
 	trimLoop                     ast.Stmt // rich: the loop defining word
-	splitLoop                    ast.Stmt
-	splitOK                      bool
+	splits                       map[ast.Stmt]*c16Split
 	undecided                    bool
 
 	// the cut: word = seg[:cut], trSpace = seg[cut:] (c16trim.go)
@@ -114,7 +113,7 @@ func (s *c16Scanner) appendOf(as *ast.AssignStmt, field string) ast.Expr {
 
 // c16Load builds the model of one scanner; problems are reported as undecided.
 func c16Load(c *Ctx, short string) *c16Scanner {
-	s := &c16Scanner{c: c, short: short, name: short + ".(*SoftwrapScanner).Scan", measure: map[types.Object]types.Object{}, measureLoop: map[ast.Stmt]bool{}}
+	s := &c16Scanner{c: c, short: short, name: short + ".(*SoftwrapScanner).Scan", measure: map[types.Object]types.Object{}, measureLoop: map[ast.Stmt]bool{}, splits: map[ast.Stmt]*c16Split{}}
 	s.fi = c15Func(c, s.name)
 	pk := c.P.Pkg(short)
 	if s.fi == nil || pk == nil {
@@ -325,7 +324,7 @@ func (s *c16Scanner) checkConstruction() {
 		if !ok {
 			return true
 		}
-		it := c15IterOf(info, s.defs, st)
+		it := s.iterOf(st)
 		if it == nil || !it.full {
 			return true
 		}
@@ -608,6 +607,10 @@ type c16Path struct {
 	trimmed   bool // seg lost its trailing terminator on this path
 	pos       token.Pos
 	odd       []string
+	// a scan of the long word has handed word[:k] to the token; k is held by the local `cut`, the word's graphemes are
+	// W (c16split.go). Cleared when the tail W[cut:] has been moved to the rest.
+	cut, cutW types.Object
+	cutX      string
 }
 
 func (p c16Path) clone() c16Path {
@@ -724,7 +727,8 @@ func (s *c16Scanner) condLabel(e ast.Expr) string {
 }
 
 // hasEvents: does n touch s.token / s.rest / s.state / seg, or leave the loop body?
-func (s *c16Scanner) hasEvents(n ast.Node) bool {
+// While a split index is pending on the path (p.cut), anything that may change it or the word's graphemes is an event too.
+func (s *c16Scanner) hasEvents(n ast.Node, p *c16Path) bool {
 	found := false
 	ast.Inspect(n, func(m ast.Node) bool {
 		switch t := m.(type) {
@@ -739,6 +743,9 @@ func (s *c16Scanner) hasEvents(n ast.Node) bool {
 		}
 		return !found
 	})
+	if !found && p != nil && p.cut != nil {
+		found = len(c16WritesTo(s.info, n, p.cut)) > 0 || len(c16WritesTo(s.info, n, p.cutW)) > 0
+	}
 	return found
 }
 
@@ -760,6 +767,14 @@ func (s *c16Scanner) exec(stmts []ast.Stmt, in c16Path) []c16Path {
 
 func (s *c16Scanner) step(st ast.Stmt, p c16Path) []c16Path {
 	info := s.info
+	if p.cut != nil && s.tailMove(st, p.cut, p.cutX) {
+		if !p.restSet {
+			p.odd = append(p.odd, "the tail of the split word is appended to the old s.rest")
+		}
+		p.rest = append(p.rest, "word[k:]")
+		p.cut, p.cutW, p.cutX = nil, nil, ""
+		return []c16Path{p}
+	}
 	switch t := st.(type) {
 	case *ast.BlockStmt:
 		return s.exec(t.List, p)
@@ -801,10 +816,10 @@ func (s *c16Scanner) step(st ast.Stmt, p c16Path) []c16Path {
 		}
 		return outs
 	case *ast.SwitchStmt:
-		if !s.hasEvents(t) {
+		if !s.hasEvents(t, &p) {
 			return []c16Path{p}
 		}
-		if t.Init != nil && s.hasEvents(t.Init) {
+		if t.Init != nil && s.hasEvents(t.Init, &p) {
 			p.odd = append(p.odd, "switch-init with effects")
 		}
 		// an if/else-if chain in disguise
@@ -859,10 +874,10 @@ func (s *c16Scanner) step(st ast.Stmt, p c16Path) []c16Path {
 		}
 		return outs
 	case *ast.IfStmt:
-		if t.Init != nil && s.hasEvents(t.Init) {
+		if t.Init != nil && s.hasEvents(t.Init, &p) {
 			p.odd = append(p.odd, "if-init with effects")
 		}
-		if !s.hasEvents(t) {
+		if !s.hasEvents(t, &p) {
 			return []c16Path{p}
 		}
 		lbl := s.condLabel(t.Cond)
@@ -883,14 +898,22 @@ func (s *c16Scanner) step(st ast.Stmt, p c16Path) []c16Path {
 		// the TLB decision only matters for what is stripped; merge it out of the signature
 		return outs
 	case *ast.ForStmt, *ast.RangeStmt:
-		if st == s.trimLoop || s.measureLoop[st] || !s.hasEvents(st) {
+		if st == s.trimLoop || s.measureLoop[st] || !s.hasEvents(st, &p) {
 			return []c16Path{p}
 		}
-		if s.recogniseSplit(st) {
+		if sp := s.recogniseSplit(st); sp.ok {
+			p.tok = append(p.tok, "word[:k]")
+			if sp.cut != nil {
+				// the scan only; the tail follows (step, above)
+				if p.cut != nil {
+					p.odd = append(p.odd, "a second scan of the word before the tail of the first has been moved")
+				}
+				p.cut, p.cutW, p.cutX = sp.cut, sp.w, sp.xID
+				return []c16Path{p}
+			}
 			if !p.restSet {
 				p.odd = append(p.odd, "the per-grapheme split appends to the old s.rest")
 			}
-			p.tok = append(p.tok, "word[:k]")
 			p.rest = append(p.rest, "word[k:]")
 			return []c16Path{p}
 		}
@@ -916,6 +939,8 @@ func (s *c16Scanner) step(st ast.Stmt, p c16Path) []c16Path {
 				r = unparen(t.Rhs[i])
 			}
 			switch {
+			case p.cut != nil && (s.isObj(l, p.cut) || s.isObj(l, p.cutW)):
+				p.odd = append(p.odd, "the split index or the word's graphemes are reassigned before the tail of the word has been moved to the rest")
 			case s.isField(l, "token"):
 				p.odd = append(p.odd, "s.token is overwritten inside the segment loop")
 			case s.isField(l, "rest"):
@@ -951,12 +976,12 @@ func (s *c16Scanner) step(st ast.Stmt, p c16Path) []c16Path {
 		}
 		return []c16Path{p}
 	case *ast.DeclStmt, *ast.ExprStmt, *ast.IncDecStmt, *ast.EmptyStmt:
-		if s.hasEvents(st) {
+		if s.hasEvents(st, &p) {
 			p.odd = append(p.odd, "statement with effects not understood: "+fmt.Sprintf("%T", st))
 		}
 		return []c16Path{p}
 	}
-	if s.hasEvents(st) {
+	if s.hasEvents(st, &p) {
 		p.odd = append(p.odd, fmt.Sprintf("construct %T with effects on token/rest", st))
 	}
 	return []c16Path{p}
@@ -993,19 +1018,34 @@ func (s *c16Scanner) isLastRuneLen(termID string) bool {
 //	Form B: for i, ch := range W { if C { rest += W[i:]...; break }; token += ch; w += ch.Width }
 //
 // W is word itself or ctx.Characters(string(word)).
-func (s *c16Scanner) recogniseSplit(loop ast.Stmt) bool {
-	if s.splitLoop == loop {
-		return s.splitOK
+//
+//	Form C: for n < len(W) { if C { break }; token += W[n]; w += W[n].Width; n++ }  — the scan only: the index that outlives
+//	        the loop (or a local set to it before the break) is the cut, and W[cut:] is moved to rest later on the path
+//	        (c16split.go); sp.cut is set and the path rule waits for the tail.
+type c16Split struct {
+	ok     bool         // the loop is (or is reported as) the split of the word: the path rule records word[:k]
+	cut, w types.Object // Form C: the local holding k after the loop, and W
+	xID    string
+}
+
+func (s *c16Scanner) recogniseSplit(loop ast.Stmt) *c16Split {
+	if sp := s.splits[loop]; sp != nil {
+		return sp
 	}
-	s.splitLoop, s.splitOK = loop, false
+	sp := &c16Split{}
+	s.splits[loop] = sp
+	sp.ok = s.recogniseSplit1(loop, sp)
+	return sp
+}
+
+func (s *c16Scanner) recogniseSplit1(loop ast.Stmt, sp *c16Split) bool {
 	c, info := s.c, s.info
 	key := s.name + "/long word is split in order"
 	fail := func(format string, args ...any) bool {
 		c.bad("C16.a", key, loop.Pos(), format, args...)
-		s.splitOK = true // the path rule continues with the split event; the defect is reported here
-		return true
+		return true // the path rule continues with the split event; the defect is reported here
 	}
-	it := c15IterOf(info, s.defs, loop)
+	it := s.iterOf(loop)
 	if it == nil || !it.full {
 		s.und("C16.a", "long word is split in order", loop.Pos(), "split loop is not a front-to-back iteration")
 		return false
@@ -1105,7 +1145,7 @@ func (s *c16Scanner) recogniseSplit(loop ast.Stmt) bool {
 		s.und("C16.a", "long word is split in order", loop.Pos(), "split loop does not start with `if <full> { rest...; continue|break }`")
 		return false
 	}
-	if len(tb) < 2 {
+	if len(tb) < 1 {
 		s.und("C16.a", "long word is split in order", ifs.Pos(), "the full-line branch is not `rest += ...; continue|break`")
 		return false
 	}
@@ -1171,6 +1211,16 @@ func (s *c16Scanner) recogniseSplit(loop ast.Stmt) bool {
 			return false
 		}
 	case token.BREAK:
+		// Form C: the breaking arm moves nothing; the number of graphemes kept is in a local that outlives the loop
+		if cut := s.scanCut(loop, it, tb[:len(tb)-1]); cut != nil {
+			sp.cut, sp.w, sp.xID = cut, rootObj(info, c16StripConv(info, it.x)), it.xID
+			c.ok("C16.a", key, loop.Pos(), "graphemes go to the token, in order, until the line is full; %s then holds how many (the rest of the word is moved after the loop)", cut.Name())
+			return true
+		}
+		if len(tb) < 2 {
+			s.und("C16.a", "long word is split in order", ifs.Pos(), "the full-line branch is not `rest += ...; continue|break`, and no local holds the split index after the loop")
+			return false
+		}
 		// Form B: the true branch moves W[i:] to rest
 		if it.idx == nil {
 			return fail("the split loop breaks without moving the remaining graphemes to rest")
@@ -1224,7 +1274,6 @@ func (s *c16Scanner) recogniseSplit(loop ast.Stmt) bool {
 		return false
 	}
 	c.ok("C16.a", key, loop.Pos(), "graphemes go to the token until the line is full, all later ones to rest, in order")
-	s.splitOK = true
 	return true
 }
 
@@ -1587,6 +1636,7 @@ func runC16(c *Ctx) {
 	// helper extraction and named locals are undone first (c15norm.go): every rule below, and the extra rules, see the normal form
 	// and so are local closures, local structs that only bundle locals, and dead-source copies (c16norm.go)
 	c16Normalise(c)
+	debugDumpFuncs(c)
 	c.Clauses = []string{
 		"C16.a segment accounting on every path of both Scan loops (word/trSpace/rest each once, in order, only trSpace droppable; unconsumed paths add nothing; back edges consume); seg = word ++ trSpace; rest = s.rest[len(seg):]; the long-word split is monotone",
 		"C16.b the hard-break path returns and strips only a trailing line terminator",
@@ -1704,7 +1754,7 @@ func (s *c16Scanner) widthRule() {
 			// an element of the loop this append sits in; its width is what the loop adds to w
 			var it *c15Iter
 			if lp := c15LoopOf(s.par, as); lp != nil {
-				it = c15IterOf(info, s.defs, lp)
+				it = s.iterOf(lp)
 			}
 			if it == nil || !it.isElem(e) {
 				c.undecided("C16.e", s.name+"/token += "+types.ExprString(x), as.Pos(), "appended material not recognised")
